@@ -121,6 +121,7 @@ def bfs_real(ad, insts, pad_steps=2, max_depth=None):
                         pad[j]["a"].append(int(a[k]))
                         pad[j]["mask"].append(mask_list(td_p["action_mask"][k]))
                         pad[j]["done"].append(bool(dp[k]))
+                        pad[j].setdefault("st", []).append(ad.project(td_p, k, group[row_inst[term[j]]]))
                         ph[j].append(int(a[k]))
                 if alive and pad_steps > 0:
                     scp = score(ad, env, td_p, [ph[j] for j in alive],
